@@ -144,6 +144,7 @@ var RootSets = map[string][]string{
 	// headers whose length prefix is 2 and 3 bytes wide (>=128 and >=16384 bytes), and whose CBOR
 	// array head changes width (24 roots)
 	"r4":   {"a", "b", "c", "s"},
+	"aab":  {"a", "a", "b"},
 	"r24":  ManyNames(24),
 	"r100": ManyNames(100),
 	"r400": ManyNames(400),
